@@ -144,6 +144,11 @@ impl Vm {
     self.gc.borrow().allocated()
   }
 
+  /// Every allocation the collector holds with the size it reports for it
+  pub fn verif_objects(&self) -> (Vec<(usize, usize, u8)>, Vec<(usize, usize)>) {
+    self.gc.borrow().verif_objects()
+  }
+
   /// Temporary roots currently registered
   pub fn verif_temp_roots(&self) -> usize {
     self.gc.borrow().temp_roots()
